@@ -443,6 +443,20 @@ public:
       O["body"] = stmt(FS->getBody());
       return std::move(O);
     }
+    if (auto *RF = dyn_cast<CXXForRangeStmt>(S)) {
+      // for (decl : range): the range expression, the loop variable (with its type) and the body; the desugared
+      // begin/end machinery is not exported (the interpreter walks arrays and std::array by index)
+      if (RF->getRangeInit()) O["range"] = stmt(RF->getRangeInit());
+      if (const VarDecl *LV = RF->getLoopVariable()) {
+        json::Object V;
+        V["id"] = declId(LV);
+        V["n"] = LV->getNameAsString();
+        V["t"] = typeDesc(LV->getType());
+        O["var"] = std::move(V);
+      }
+      O["body"] = stmt(RF->getBody());
+      return std::move(O);
+    }
     if (auto *WS = dyn_cast<WhileStmt>(S)) {
       O["cond"] = stmt(WS->getCond());
       O["body"] = stmt(WS->getBody());
